@@ -211,6 +211,29 @@ def install_helpers(lib):
         "update_node_event", [("node_id", ("obj", "nodeid"), None), ("env", ("env",), None), ("event_type", ("str",), VStr("entry"))],
         post=une_post, modifies=("timestamp_node_entry", "timestamp_node_exit", "current_node_id", "stats"),
         uses_inv=False, keeps_inv=False, props=("C18", "C20"))
+    # constructors of the flow items (were an assumed model `Item(...)/Pallet(...)` of the node bodies, nodes_sl.builtin):
+    # a new flow item carries no time stamp yet (C18: cycle time = reception - creation needs the stamp to be set by the
+    # source, not inherited), knows its kind (C16: the splitter tells pallet from item by flow_item_type), and a new
+    # pallet is empty (C16)
+    def stamps_none(c):
+        n = c.new
+        return [Clause("no-time-stamp-yet", lambda c: z3.And(n.f["timestamp_creation"].isnone, n.f["timestamp_node_entry"].isnone,
+                                                            n.f["timestamp_node_exit"].isnone, n.f["current_node_id"].isnone),
+                       ("C18",))]
+    for cls_, kind_ in (("BaseFlowItem", None), ("Item", "item"), ("Pallet", "Pallet")):
+        def post_(c, kind_=kind_, cls_=cls_):
+            out = stamps_none(c)
+            if kind_ is not None:
+                out.append(Clause("kind-is-" + kind_, lambda c: V.eq(c.new.f["flow_item_type"], VStr(kind_)), ("C16", "C03")))
+            if cls_ == "Pallet":
+                out.append(Clause("new-pallet-is-empty", lambda c: c.new.f["items"].len == 0, ("C16", "C03")))
+            return out
+        mods_ = ("timestamp_creation", "source_id", "timestamp_node_entry", "timestamp_node_exit", "current_node_id", "stats") \
+            + (("flow_item_type",) if kind_ else ()) + (("items",) if cls_ == "Pallet" else ())
+        ci = FnContract("__init__", [("id", ("opaque",), None)], post=post_, uses_inv=False, keeps_inv=False, is_init=True,
+                        modifies=mods_, props=("C16", "C18", "C03", "C20"))
+        ci.no_frame = True
+        C[cls_]["__init__"] = ci
     # BaseFlowItem.set_creation(source_id, env): stamps the creation time with the current time (C18)
     C["BaseFlowItem"]["set_creation"] = FnContract(
         "set_creation", [("source_id", ("obj", "nodeid"), None), ("env", ("env",), None)],
